@@ -144,6 +144,10 @@ pub trait Monitor: Sync {
 	fn exhaustive(&self, _tier: Tier) -> bool {
 		false
 	}
+	/// sanitizer lanes to run after the main workload (thorough tier)
+	fn lanes(&self, _tier: Tier) -> Vec<Lane> {
+		vec![]
+	}
 	/// per-worker wall-clock watchdog (firing = inconclusive, never a violation)
 	fn watchdog(&self, tier: Tier) -> Duration {
 		Duration::from_secs(tier.pick(900, 4 * 3600))
@@ -350,7 +354,7 @@ pub struct Finding {
 }
 
 pub fn load_findings() -> Vec<Finding> {
-	let p = verif_root().join("known_findings.json");
+	let p = std::env::var("PVH_FINDINGS").map(PathBuf::from).unwrap_or_else(|_| verif_root().join("known_findings.json"));
 	let Ok(s) = fs::read_to_string(&p) else { return vec![] };
 	let Ok(v) = serde_json::from_str::<Value>(&s) else {
 		eprintln!("harness error: cannot parse {}", p.display());
@@ -368,6 +372,197 @@ pub fn load_findings() -> Vec<Finding> {
 	out
 }
 
+// ------------------------------------------------------------ sanitizer lanes
+
+#[derive(Clone, Debug)]
+pub enum LaneKind {
+	/// `cargo +nightly miri run -- lane <name> <shard> <nshards>`
+	Miri,
+	/// `valgrind --error-exitcode=99 pvh lane <name> <shard> <nshards> c`
+	Valgrind,
+	/// rebuild the harness with -Zsanitizer=address and run `<ID> quick` with it
+	AsanQuick,
+}
+
+#[derive(Clone, Debug)]
+pub struct Lane {
+	pub kind: LaneKind,
+	pub name: &'static str,
+	/// shard indices to run out of `nshards`
+	pub shards: Vec<usize>,
+	pub nshards: usize,
+}
+
+pub struct LaneResult {
+	pub json: Value,
+	pub violations: Vec<Violation>,
+	pub inconclusive: Vec<String>,
+}
+
+fn harness_dir() -> PathBuf {
+	// the crate lives next to the binary's target dir: <root>/harness
+	std::env::var("PVH_HARNESS").map(PathBuf::from).unwrap_or_else(|_| PathBuf::from("/verif/harness"))
+}
+
+fn run_with_timeout(mut cmd: Command, out_path: &Path, timeout: Duration) -> (Option<i32>, bool) {
+	let f = File::create(out_path).expect("lane log");
+	let f2 = f.try_clone().expect("clone");
+	let mut child = match cmd.stdin(Stdio::null()).stdout(f).stderr(f2).spawn() {
+		Ok(c) => c,
+		Err(_) => return (None, false),
+	};
+	let t0 = Instant::now();
+	loop {
+		match child.try_wait() {
+			Ok(Some(st)) => return (st.code().or_else(|| st.signal().map(|s| 128 + s)), false),
+			Ok(None) => {
+				if t0.elapsed() > timeout {
+					let _ = child.kill();
+					let _ = child.wait();
+					return (None, true);
+				}
+				std::thread::sleep(Duration::from_millis(50));
+			}
+			Err(_) => return (None, false),
+		}
+	}
+}
+
+pub fn run_lane(id: &str, lane: &Lane, seed: u64) -> LaneResult {
+	let t0 = Instant::now();
+	let dir = work_dir(id).join("lanes");
+	let _ = fs::create_dir_all(&dir);
+	let root = verif_root();
+	let mut res = LaneResult { json: json!({}), violations: vec![], inconclusive: vec![] };
+	let mut evaluations = 0u64;
+	let mut exit_codes: BTreeMap<String, u64> = BTreeMap::new();
+	let kind_name = match lane.kind {
+		LaneKind::Miri => "miri",
+		LaneKind::Valgrind => "valgrind-memcheck",
+		LaneKind::AsanQuick => "asan",
+	};
+	match lane.kind {
+		LaneKind::AsanQuick => {
+			let tdir = root.join("target").join("asan");
+			let log = dir.join("asan-build.log");
+			let mut c = Command::new("cargo");
+			c.args(["+nightly", "build", "--offline", "-q", "--target", "x86_64-unknown-linux-gnu"]).current_dir(harness_dir()).env("RUSTFLAGS", "-Zsanitizer=address -Cforce-frame-pointers=yes").env("CARGO_TARGET_DIR", &tdir).env("CARGO_NET_OFFLINE", "true");
+			let (code, timed_out) = run_with_timeout(c, &log, Duration::from_secs(1800));
+			if code != Some(0) {
+				res.inconclusive.push(format!("asan lane: build failed (exit {:?}, timeout {}), see {}", code, timed_out, log.display()));
+			} else {
+				let nested_root = dir.join("asan-root");
+				let _ = fs::remove_dir_all(&nested_root);
+				let _ = fs::create_dir_all(&nested_root);
+				let log = dir.join("asan-run.log");
+				let mut c = Command::new(tdir.join("x86_64-unknown-linux-gnu/debug/pvh"));
+				c.args(["run", id, "quick"]).env("PVH_ROOT", &nested_root).env("PVH_FINDINGS", root.join("known_findings.json")).env("VERIF_SEED", seed.to_string()).env("ASAN_OPTIONS", "detect_leaks=0:abort_on_error=1:halt_on_error=1").env("PVH_NO_LANES", "1");
+				let (code, timed_out) = run_with_timeout(c, &log, Duration::from_secs(3600));
+				*exit_codes.entry(format!("{:?}", code)).or_default() += 1;
+				let ev: Option<Value> = fs::read_to_string(nested_root.join("evidence").join(format!("{}.json", id))).ok().and_then(|s| serde_json::from_str(&s).ok());
+				if let Some(ev) = &ev {
+					evaluations += ev["coverage"]["evaluations"].as_u64().unwrap_or(0);
+				}
+				if timed_out {
+					res.inconclusive.push("asan lane: timed out".into());
+				} else if code == Some(1) {
+					// violations found by the instrumented run (functional or sanitizer abort)
+					let text = fs::read_to_string(&log).unwrap_or_default();
+					let mut stderr_all = String::new();
+					if let Ok(rd) = fs::read_dir(nested_root.join("work").join(id)) {
+						for e in rd.filter_map(|e| e.ok()) {
+							if e.file_name().to_string_lossy().starts_with("stderr-") {
+								stderr_all.push_str(&fs::read_to_string(e.path()).unwrap_or_default());
+							}
+						}
+					}
+					let asan_line = stderr_all.lines().find(|l| l.contains("AddressSanitizer")).unwrap_or("").to_string();
+					let first_sig = text.lines().find(|l| l.trim_start().starts_with("signature:")).unwrap_or("").trim().to_string();
+					res.violations.push(Violation { sig: format!("lane=asan;{};{}", norm_msg(&asan_line), first_sig), detail: format!("ASan-instrumented run of `{} quick` reported violations; log {}; {}", id, log.display(), asan_line), witness: None, sub: None });
+				} else if code != Some(0) {
+					res.inconclusive.push(format!("asan lane: nested run exit {:?} (harness error), see {}", code, log.display()));
+				}
+			}
+		}
+		LaneKind::Miri | LaneKind::Valgrind => {
+			let jobs = std::thread::available_parallelism().map(|n| n.get()).unwrap_or(4);
+			let mut pending: Vec<usize> = lane.shards.clone();
+			pending.reverse();
+			let mut running: Vec<(usize, std::thread::JoinHandle<(Option<i32>, bool)>, PathBuf)> = vec![];
+			let mut finished: Vec<(usize, Option<i32>, bool, PathBuf)> = vec![];
+			if let LaneKind::Miri = lane.kind {
+				// build once (serialised by cargo's lock otherwise)
+				let mut c = Command::new("cargo");
+				c.args(["+nightly", "miri", "run", "--offline", "-q", "--", "list"]).current_dir(harness_dir()).env("CARGO_TARGET_DIR", root.join("target").join("miri")).env("CARGO_NET_OFFLINE", "true").env("MIRIFLAGS", "-Zmiri-disable-isolation");
+				let (code, _) = run_with_timeout(c, &dir.join("miri-build.log"), Duration::from_secs(1800));
+				if code != Some(0) {
+					res.inconclusive.push(format!("miri lane: build failed (exit {:?}), see {}", code, dir.join("miri-build.log").display()));
+					pending.clear();
+				}
+			}
+			while !pending.is_empty() || !running.is_empty() {
+				while running.len() < jobs && !pending.is_empty() {
+					let shard = pending.pop().unwrap();
+					let log = dir.join(format!("{}-{}-{}.log", kind_name, lane.name, shard));
+					let mut c;
+					match lane.kind {
+						LaneKind::Miri => {
+							c = Command::new("cargo");
+							c.args(["+nightly", "miri", "run", "--offline", "-q", "--", "lane", lane.name, &shard.to_string(), &lane.nshards.to_string()]).current_dir(harness_dir()).env("CARGO_TARGET_DIR", root.join("target").join("miri")).env("CARGO_NET_OFFLINE", "true").env("MIRIFLAGS", "-Zmiri-disable-isolation");
+						}
+						_ => {
+							c = Command::new("valgrind");
+							c.args(["-q", "--error-exitcode=99", "--errors-for-leak-kinds=none"]).arg(std::env::current_exe().expect("exe")).args(["lane", lane.name, &shard.to_string(), &lane.nshards.to_string(), "c"]);
+						}
+					}
+					let log2 = log.clone();
+					let h = std::thread::spawn(move || run_with_timeout(c, &log2, Duration::from_secs(3600)));
+					running.push((shard, h, log));
+				}
+				let mut still = vec![];
+				for (shard, h, log) in running.drain(..) {
+					if h.is_finished() {
+						let (code, to) = h.join().unwrap_or((None, false));
+						finished.push((shard, code, to, log));
+					} else {
+						still.push((shard, h, log));
+					}
+				}
+				running = still;
+				std::thread::sleep(Duration::from_millis(100));
+			}
+			for (shard, code, timed_out, log) in finished {
+				*exit_codes.entry(format!("{:?}", code)).or_default() += 1;
+				let text = fs::read_to_string(&log).unwrap_or_default();
+				for l in text.lines() {
+					if let Some(i) = l.find("evaluations=") {
+						evaluations += l[i + 12..].split_whitespace().next().and_then(|x| x.parse::<u64>().ok()).unwrap_or(0);
+					}
+				}
+				if timed_out {
+					res.inconclusive.push(format!("{} lane {} shard {}: timed out", kind_name, lane.name, shard));
+					continue;
+				}
+				let ub = text.lines().find(|l| l.contains("Undefined Behavior") || l.contains("error: memory leaked") || l.contains("Invalid read") || l.contains("Invalid write") || l.contains("uninitialised") || l.contains("Invalid free") || l.contains("Mismatched free"));
+				let func = text.lines().find(|l| l.starts_with("LANE-VIOLATION"));
+				if let Some(l) = ub {
+					res.violations.push(Violation { sig: format!("lane={};{};{}", kind_name, lane.name, norm_msg(l.trim())), detail: format!("{} reported: {} (lane {} shard {}/{}, log {})", kind_name, l.trim(), lane.name, shard, lane.nshards, log.display()), witness: None, sub: Some(shard as u64) });
+				} else if let Some(l) = func {
+					res.violations.push(Violation { sig: format!("lane={};{};functional", kind_name, lane.name), detail: format!("{} (lane {} shard {}/{}, log {})", l, lane.name, shard, lane.nshards, log.display()), witness: None, sub: Some(shard as u64) });
+				} else if code == Some(99) {
+					res.violations.push(Violation { sig: format!("lane={};{};memcheck-error", kind_name, lane.name), detail: format!("valgrind memcheck reported errors (lane {} shard {}, log {})", lane.name, shard, log.display()), witness: None, sub: Some(shard as u64) });
+				} else if code != Some(0) {
+					// e.g. Miri "unsupported operation": the runtime could not execute the workload
+					let why = text.lines().find(|l| l.contains("unsupported operation") || l.starts_with("error")).unwrap_or("");
+					res.inconclusive.push(format!("{} lane {} shard {}: exit {:?} {} (log {})", kind_name, lane.name, shard, code, why.trim(), log.display()));
+				}
+			}
+		}
+	}
+	res.json = json!({"lane": lane.name, "runtime": kind_name, "shards_run": lane.shards.len(), "of_shards": lane.nshards, "evaluations_under_runtime": evaluations, "exit_codes": exit_codes, "violations": res.violations.len(), "inconclusive": res.inconclusive.len(), "wall_s": t0.elapsed().as_secs_f64()});
+	res
+}
+
 // ------------------------------------------------------------ aggregation
 
 #[derive(Default)]
@@ -381,6 +576,7 @@ pub struct Aggregate {
 	pub counters: BTreeMap<String, u64>,
 	pub observed: BTreeMap<String, BTreeSet<String>>,
 	pub deaths: Vec<String>,
+	pub lanes: Vec<Value>,
 }
 
 fn work_dir(id: &str) -> PathBuf {
@@ -625,6 +821,25 @@ pub fn run_check(mon: &dyn Monitor, tier: Tier, seed: u64) -> i32 {
 			}
 		}
 	}
+	// sanitizer lanes (thorough tier; PVH_LANES=1 forces them, PVH_NO_LANES=1 disables)
+	let want_lanes = (tier == Tier::Thorough || std::env::var("PVH_LANES").is_ok()) && std::env::var("PVH_NO_LANES").is_err();
+	if want_lanes {
+		for lane in mon.lanes(tier) {
+			let r = run_lane(id, &lane, seed);
+			println!("[{}] lane {}", id, r.json);
+			agg.lanes.push(r.json.clone());
+			for v in r.violations {
+				let rdir = replay_dir(id);
+				let _ = fs::create_dir_all(&rdir);
+				let path = rdir.join(format!("{}-{}-lane-{}-{}.json", tier.name(), seed, lane.name, agg.violations.len()));
+				let _ = fs::write(&path, serde_json::to_string_pretty(&json!({"property": id, "lane": lane.name, "signature": v.sig, "detail": v.detail})).unwrap());
+				agg.violations.push((usize::MAX, v, Some(path.display().to_string())));
+			}
+			for i in r.inconclusive {
+				agg.inconclusive.push(i);
+			}
+		}
+	}
 	finish(mon, tier, seed, n, agg, t0)
 }
 
@@ -671,6 +886,7 @@ fn finish(mon: &dyn Monitor, tier: Tier, seed: u64, n_cases: usize, agg: Aggrega
 		"counters": agg.counters,
 		"observed": agg.observed.iter().map(|(k, v)| (k.clone(), json!({"distinct": v.len(), "values": v.iter().take(60).collect::<Vec<_>>()}))).collect::<BTreeMap<_, _>>(),
 		"process_deaths": agg.deaths,
+		"sanitizer_lanes": agg.lanes,
 		"known_findings_reobserved": known_hits,
 		"exhaustive": mon.exhaustive(tier),
 		"harness_errors": harness_errors,
